@@ -47,6 +47,7 @@ class State(object):
         self.call_obligations = []    # (name, pc snapshot, goal) for callee preconditions
         self.events = []              # ghost trace (e.g. external calls) for call-order obligations
         self.files = {}
+        self.ext_calls = []           # (kind, input snapshot, shape) of uninterpreted external calls, in order
         self.in_build = True
 
     # ---------------------------------------------------------------- facts
